@@ -6,11 +6,15 @@ from fractions import Fraction
 import numpy as np
 
 import arch_util as au
+import py2v_stats
 
 CONFIG = {
     "cone": ["Base/ListUtil.v", "Base/QUtil.v", "Base/FirstArgmax.v", "Model/Store.v", "Proofs/StoreProofs.v", "Model/Archive.v",
-             "Proofs/ArchiveProofs.v", "Proofs/C01Proofs.v", "Proofs/C02Proofs.v", "Proofs/C06Proofs.v", "Properties/C06.v"],
-    "trusted": ["Model/Archive.v (see C01)",
+             "Proofs/ArchiveProofs.v", "Proofs/C01Proofs.v", "Proofs/C02Proofs.v", "Proofs/C06Proofs.v", "Generated/StatsGen.v", "Refine/StatsRefine.v", "Properties/C06.v"],
+    "extra_property_files": ["Refine/StatsRefine.v"],
+    "trusted": ["harness/py2v_stats.py: fail-closed ast translator of ArchiveBase._stats_update and of the objective-sum expression of "
+                "compute_objective_sum into Generated/StatsGen.v on every run; Refine/StatsRefine.v proves them equal to the model for all arguments",
+                "Model/Archive.v (see C01)",
                 "floating point: exact-arithmetic theorems; an exact stream (dyadic objectives/offsets so that every sum is exact) is compared "
                 "bit for bit over whole histories, CMA-MAE and moderate floats step-wise within a few ulp of the summed magnitudes",
                 "ProximityArchive's coverage=1 / cells=len convention and remaps are exercised by the C14 / C15 checks; cqd_score is checked "
@@ -22,7 +26,7 @@ CONFIG = {
                   "elite in elitist archives), C06_noop_calls, C06_clear_resets. Default and CMA-MAE settings, replacements that lower a "
                   "cell's objective included.",
     "level_note": "Trusted: Coq kernel; extraction + driver; model tied by sampling; harness. No axioms. cqd_score: harness-level only.",
-    "technique": "Rocq/Coq invariant proof (sum under pointwise update at distinct keys, ghost write list) + correspondence run",
+    "technique": "source-derived fragments (py2v translator + refinement lemmas) + Rocq/Coq invariant proof (sum under pointwise update at distinct keys, ghost write list) + correspondence run",
     "design_ref": "DESIGN.md section 5, C06",
 }
 
@@ -127,6 +131,7 @@ def nontrivial(case):
 
 
 def check(rep, tier, seed, driver):
+    py2v_stats.report(rep)
     rng = random.Random(seed)
     n = 300 if tier == "quick" else 6000
     rep.rule = ("(a) exact stream: dyadic objectives (multiples of 1/8, |x| <= 8) and dyadic offsets so that every float sum is exact; elitist "
